@@ -33,6 +33,10 @@ def isa_base(rng, de):
         'rega': {'operand_values': {'only_a': {'type': 'register', 'register': 'a', 'bytecode': {'value': 1, 'size': 2}}}},
         'ind16': {'operand_values': {'in16': {'type': 'indirect_numeric', 'argument': {'size': 16, 'byte_align': True}}}},
         'rel8': {'operand_values': {'rl8': {'type': 'relative_address', 'argument': {'size': 8, 'byte_align': True}}}},
+        'def16': {'operand_values': {'df16': {'type': 'deferred_numeric', 'argument': {'size': 16, 'byte_align': True}}}},
+        # one instruction, two addressing modes told apart by a 2-bit code: [x] and [[x]]
+        'mem': {'operand_values': {'m_in': {'type': 'indirect_numeric', 'bytecode': {'value': 1, 'size': 2}, 'argument': {'size': 16, 'byte_align': True}},
+                                   'm_df': {'type': 'deferred_numeric', 'bytecode': {'value': 2, 'size': 2}, 'argument': {'size': 16, 'byte_align': True}}}},
         'rel8e': {'operand_values': {'rl8e': {'type': 'relative_address', 'argument': {'size': 8, 'byte_align': True, 'min': -100, 'max': 100},
                                               'offset_from_instruction_end': True}}},
     }
@@ -47,11 +51,14 @@ def isa_base(rng, de):
         'rega': [{'id': 'only_a', 't': 'register', 'r': 'a', 'code': {'v': 1, 'n': 2}}],
         'ind16': [{'id': 'in16', 't': 'indirect_numeric', 'arg': A16}],
         'rel8': [{'id': 'rl8', 't': 'relative_address', 'arg': A8}],
+        'def16': [{'id': 'df16', 't': 'deferred_numeric', 'arg': A16}],
+        'mem': [{'id': 'm_in', 't': 'indirect_numeric', 'code': {'v': 1, 'n': 2}, 'arg': A16},
+                {'id': 'm_df', 't': 'deferred_numeric', 'code': {'v': 2, 'n': 2}, 'arg': A16}],
         'rel8e': [{'id': 'rl8e', 't': 'relative_address', 'arg': A8, 'min': -100, 'max': 100, 'fromEnd': True}],
     }
     defs = [('nop', 0xEA, 8, []), ('ldn', 0x3, 4, ['imm8u']), ('ldi', 0x11, 8, ['regs', 'imm8']), ('ldw', 0x22, 8, ['imm16']),
             ('jr', 0x40, 8, ['rel8']), ('jre', 0x41, 8, ['rel8e']), ('st', 0x50, 8, ['ind16']), ('inc', 0x7, 6, ['regs']),
-            ('mv', 0x9, 4, ['regs', 'regs'])]
+            ('mv', 0x9, 4, ['regs', 'regs']), ('ldd', 0x60, 8, ['def16']), ('lda', 0x2A, 6, ['mem'])]
     instrs_y, instrs_m = {}, []
     for mn, opc, n, sets in defs:
         y = {'bytecode': {'value': opc, 'size': n}}
@@ -71,6 +78,15 @@ def steps_for(rng, kinds):
     cat = []
     for n, k in enumerate(kinds):
         A, R, O = f'@ARG({n})', f'@REG({n})', f'@OP({n})'
+        if k == 'def':
+            # a deferred operand handed on as a whole (@OP keeps both bracket levels) or by its inner expression (@ARG)
+            cat += [(f'ldd {O}', {'mn': 'ldd', 'ops': [{'t': 'op', 'n': n}]}),
+                    (f'lda {O}', {'mn': 'lda', 'ops': [{'t': 'op', 'n': n}]}),
+                    (f'lda {O}', {'mn': 'lda', 'ops': [{'t': 'op', 'n': n}]}),
+                    (f'ldw {A}', {'mn': 'ldw', 'ops': [{'t': 'arg', 'n': n}]}),
+                    (f'st [{A}]', {'mn': 'st', 'ops': [{'t': 'indArg', 'n': n}]}),
+                    (f'lda [{A}]', {'mn': 'lda', 'ops': [{'t': 'indArg', 'n': n}]})]
+            continue
         if k in ('num', 'ind'):
             cat += [(f'ldw {A}', {'mn': 'ldw', 'ops': [{'t': 'arg', 'n': n}]}),
                     (f'ldn {A}', {'mn': 'ldn', 'ops': [{'t': 'arg', 'n': n}]}),
@@ -109,12 +125,12 @@ def gen_case(rng, tier):
     if overlap:
         nvar = rng.choice([2, 3])
     for vi in range(nvar):
-        kinds = [rng.choice(['num', 'reg', 'ind']) for _ in range(rng.choice([0, 1, 1, 2]))]
+        kinds = [rng.choice(['num', 'reg', 'ind', 'num', 'reg', 'ind', 'def']) for _ in range(rng.choice([0, 1, 1, 2]))]
         if overlap:
             # a special case first (register a only), the general form (any register) after it: which one an invocation
             # gets depends on the definition order only, never on what was invoked before
             kinds = [['rega'], ['reg'], ['num']][vi]
-        sets = [{'num': 'imm16', 'reg': 'regs', 'ind': 'ind16', 'rega': 'rega'}[k] for k in kinds]
+        sets = [{'num': 'imm16', 'reg': 'regs', 'ind': 'ind16', 'rega': 'rega', 'def': 'def16'}[k] for k in kinds]
         steps = steps_for(rng, ['reg' if k == 'rega' else k for k in kinds])
         y = {'instructions': [t for t, _ in steps]}
         m = {'operands': {'opcode': {'v': 0, 'n': 1}}, 'steps': [s for _, s in steps]}
@@ -191,6 +207,9 @@ def gen_case(rng, tier):
                 if k == 'ind':
                     forms.append({'f': 'ind', 'e': atom})
                     texts.append(f'[{t}]')
+                elif k == 'def':
+                    forms.append({'f': 'ind2', 'e': atom})
+                    texts.append(rng.choice([f'[[{t}]]', f'[[ {t} ]]']))
                 else:
                     forms.append({'f': 'plain', 'e': atom})
                     texts.append(t)
@@ -245,7 +264,9 @@ def to_model(case):
 
 def arg_text(form_text):
     t = form_text.strip()
-    return t[1:-1].strip() if t.startswith('[') else t
+    while t.startswith('['):
+        t = t[1:-1].strip()
+    return t
 
 
 def expand_text(case, inv, variant):
